@@ -71,7 +71,7 @@ func markersCases(s []byte, emit func(Case)) {
 	rs := markers.RedactableString(string(s))
 	strip := rb.StripMarkers()
 	red := []byte(rb.Redact())
-	escm := markers.EscapeMarkers(cp(s))
+	escm := redact.EscapeMarkers(cp(s))
 	var orc []string
 	// string and byte variants, conversions
 	if rs.StripMarkers() != string(strip) {
@@ -103,7 +103,7 @@ func markersCases(s []byte, emit func(Case)) {
 	if !bytes.Equal(escm, escQ(s)) {
 		orc = append(orc, "EscapeMarkers != markers replaced by '?'")
 	}
-	if !bytes.Equal(markers.EscapeMarkers(cp(escm)), escm) {
+	if !bytes.Equal(redact.EscapeMarkers(cp(escm)), escm) {
 		orc = append(orc, "EscapeMarkers not idempotent")
 	}
 	wf := wflErr(s) == "" || wfOnly(s)
@@ -175,6 +175,27 @@ func streamMarkers(rep *Report, tier string, seed uint64) {
 		maxLen = 7
 		nrand = 1000000
 	}
+	RunStream(rep, "A-api", true, "the public wrappers of api.go / markers_print.go / util.go that have a body of their own: marker accessors, StringWithoutMarkers, SortStrings, Join", false, 1,
+		func(sh, n int, emit func(Case)) {
+			var orc []string
+			if string(redact.StartMarker()) != "‹" || string(redact.EndMarker()) != "›" || string(redact.RedactedMarker()) != "‹×›" {
+				orc = append(orc, fmt.Sprintf("C07:public marker accessors return %q %q %q", redact.StartMarker(), redact.EndMarker(), redact.RedactedMarker()))
+			}
+			for _, f := range []redact.SafeFormatter{safeFmtr{"s‹", "u›\nv"}, safeFmtr{"", ""}, sfErr{"e"}} {
+				want := redact.Sprint(f).StripMarkers()
+				if got := redact.StringWithoutMarkers(f); got != want {
+					orc = append(orc, fmt.Sprintf("C07:StringWithoutMarkers(%v) = %q, StripMarkers(Sprint) = %q", f, got, want))
+				}
+			}
+			ss := []redact.RedactableString{"b", "‹a›", "", "a", "‹b›"}
+			redact.SortStrings(ss)
+			for i := 1; i < len(ss); i++ {
+				if ss[i-1] > ss[i] {
+					orc = append(orc, fmt.Sprintf("C08:SortStrings leaves %q before %q", ss[i-1], ss[i]))
+				}
+			}
+			emit(Case{Real: "public wrappers", Oracle: orc, Nontriv: true, Kind: "api"})
+		})
 	RunStream(rep, "M-exhaustive", true, fmt.Sprintf("all strings of <=%d symbols over {‹,›,×,LF,a,E2,80,B9,BA} (%d strings)", maxLen, sumPow(len(alphaM), maxLen)), true, 16,
 		func(sh, n int, emit func(Case)) {
 			enumStrings(alphaM, maxLen, sh, n, func(s []byte) { markersCases(s, emit) })
@@ -270,11 +291,11 @@ func escapeBytesCase(s []byte, emit func(Case)) {
 		orc = append(orc, "EscapeBytes: "+e)
 	}
 	// the public EscapeMarkers: markers become '?', every other byte (valid UTF-8 or not) is left alone
-	em := markers.EscapeMarkers(cp(s))
+	em := redact.EscapeMarkers(cp(s))
 	if !bytes.Equal(em, escQ(s)) {
 		orc = append(orc, fmt.Sprintf("EscapeMarkers(b) = %x, want b with each marker replaced by '?' = %x", em, escQ(s)))
 	}
-	if !bytes.Equal(markers.EscapeMarkers(cp(em)), em) {
+	if !bytes.Equal(redact.EscapeMarkers(cp(em)), em) {
 		orc = append(orc, "EscapeMarkers is not idempotent")
 	}
 	// escaping is idempotent: EscapeMarkers∘EscapeMarkers, and safe-mode escape twice
